@@ -1601,6 +1601,57 @@ fn main() {
         }
     }
 
+    // every ordered pair of documented operator lexemes glued together between two operands (exhaustive, both tiers).
+    // Oracle independent of the model: the documented lexemes are matched longest-first (`-` `>` glued is the
+    // documented `->`, `*` `*` is `**`, …); any other fusion or split is a token the documentation does not know.
+    {
+        let documented: &[(&str, &str)] = &[
+            ("+", "Plus"), ("-", "Minus"), ("−", "Minus"), ("*", "Multiply"), ("·", "Multiply"), ("⋅", "Multiply"), ("×", "Multiply"),
+            ("/", "Divide"), ("÷", "Divide"), ("^", "Power"), ("**", "Power"), ("->", "Arrow"), ("→", "Arrow"), ("➞", "Arrow"),
+            ("<", "LessThan"), (">", "GreaterThan"), ("<=", "LessOrEqual"), ("≤", "LessOrEqual"), (">=", "GreaterOrEqual"), ("≥", "GreaterOrEqual"),
+            ("==", "EqualEqual"), ("⩵", "EqualEqual"), ("!=", "NotEqual"), ("≠", "NotEqual"), ("&&", "LogicalAnd"), ("||", "LogicalOr"),
+            ("|>", "PostfixApply"), ("!", "ExclamationMark"), ("=", "Equal"), (",", "Comma"), ("(", "LeftParen"), (")", "RightParen"),
+        ];
+        let munch = |text: &str| -> Vec<&'static str> {
+            let mut kinds = Vec::new();
+            let mut rest = text;
+            while !rest.is_empty() {
+                let mut best: Option<(&str, &'static str)> = None;
+                for (lx, k) in documented {
+                    if rest.starts_with(lx) && best.map(|b| lx.len() > b.0.len()).unwrap_or(true) {
+                        best = Some((lx, k));
+                    }
+                }
+                match best {
+                    Some((lx, k)) => { kinds.push(k); rest = &rest[lx.len()..]; }
+                    None => { kinds.push("?"); break; }
+                }
+            }
+            kinds
+        };
+        let mut n_pairs = 0u64;
+        for (l1, _) in documented {
+            for (l2, _) in documented {
+                let glued = format!("{}{}", l1, l2);
+                let src = format!("a {} b", glued);
+                let real = run_real(&src);
+                emit_lines(&mut out, &src, &real);
+                out.case(&src, true);
+                n_pairs += 1;
+                if let Ok(r) = &real {
+                    if let Some(kinds) = &r.kinds {
+                        let mid: Vec<String> = if kinds.len() >= 3 { kinds[1..kinds.len() - 2].iter().map(|k| k.0.clone()).collect() } else { vec![] };
+                        let want: Vec<String> = munch(&glued).iter().map(|k| k.to_string()).collect();
+                        if mid != want {
+                            out.oracle_fail(&format!("glue:{}", esc(&src)), &format!("src {}", esc(&src)), &format!("`{}` between two operands is lexed as {:?}; the documented lexemes give {:?}", glued, mid, want));
+                        }
+                    }
+                }
+            }
+        }
+        out.count_n("glued_operator_pairs", n_pairs);
+    }
+
     // several statements, newlines where the parser skips them, procedure calls (correspondence with the model only)
     let n_multi = args.count(1000, 50_000);
     for _ in 0..n_multi {
